@@ -388,6 +388,16 @@ static void _yr_scan_remove_match_from_list(
   match->prev = NULL;
 }
 
+#ifdef YARA_VERIF
+// Verification hook H7: one call per match handed to the chain confirmation
+// algorithm, after the lists of unconfirmed and confirmed matches changed.
+void (*yr_verif_chain_hook)(
+    YR_SCAN_CONTEXT* context,
+    YR_STRING* matching_string,
+    uint64_t match_offset,
+    int32_t match_length) = NULL;
+#endif
+
 //
 // _yr_scan_verify_chained_string_match
 //
@@ -631,6 +641,11 @@ static int _yr_scan_verify_chained_string_match(
           false));
     }
   }
+
+#ifdef YARA_VERIF
+  if (yr_verif_chain_hook != NULL)
+    yr_verif_chain_hook(context, matching_string, match_offset, match_length);
+#endif
 
   return ERROR_SUCCESS;
 }
